@@ -238,13 +238,15 @@ Proof.
 Qed.
 End Ops.
 
-Lemma nf_g_start_inv c oi s g : NfInv c s g -> NfInvM c oi s (nf_g_start c oi g).
+Lemma nf_g_start_inv c oi s g :
+  NfInv c s g -> NfInvM c oi (if oi_recdrop oi then nf_set_npu s [] else s) (nf_g_start c oi g).
 Proof.
   intros (A & B & C & D & E). unfold nf_g_start. apply nf_mask_inv; [|reflexivity].
-  split; [exact A|]. split; [exact B|]. split; [|split; [|exact E]];
-    cbn [g_all g_pall g_inc g_pre g_last g_ps g_bad g_rem g_tm g_cnt nf_mkg].
-  - destruct (oi_recdrop oi); [intros; discriminate|exact C].
-  - intros t H. destruct (oi_now oi <? g_tm g) eqn:L; [discriminate|]. destruct (D t H). split; [lia|assumption].
+  destruct (oi_recdrop oi); unfold NfInv; cbn [g_inc g_pre g_last g_ps g_bad g_rem g_tm g_cnt nf_mkg nf_npu nf_lns nf_next nf_nomore nf_stash nf_set_npu].
+  - split; [reflexivity|]. split; [exact B|]. split; [intros; discriminate|]. split; [|exact E].
+    intros t H. destruct (oi_now oi <? g_tm g) eqn:L; [discriminate|]. destruct (D t H). split; [lia|assumption].
+  - split; [exact A|]. split; [exact B|]. split; [exact C|]. split; [|exact E].
+    intros t H. destruct (oi_now oi <? g_tm g) eqn:L; [discriminate|]. destruct (D t H). split; [lia|assumption].
 Qed.
 
 Lemma nf_mayforce_stash st now x h :
@@ -316,16 +318,20 @@ Qed.
 
 Lemma nf_request_ok c s g now x ty force s' evs :
   let oi := nf_opinfo_st s (NfRequest now x ty force) in
-  NfInvM c oi s g -> nf_request c now x ty force s = (s', evs) -> NfGood c oi g s' evs.
+  NfInvM c oi s g -> oi_recdrop oi = false -> nf_request c now x ty force s = (s', evs) -> NfGood c oi g s' evs.
 Proof.
-  intros oi HI HR. unfold nf_request in HR.
+  intros oi HI Hrd HR. unfold nf_request in HR.
   assert (forall st, NfInvM c oi st g -> NfGood c oi g st [NfEvDrop ty]) as Drop.
   { intros st H. split; [intros v []|exact H]. }
   assert (NfInvM c oi (nf_set_stash s (nf_stash s ++ [nf_mk_stashed ty force])) g) as Stash.
   { apply NfInvM_stash; [assumption|]. destruct HI as ((_ & _ & _ & _ & E) & _).
     apply Forall_app. split; [assumption|]. constructor; [reflexivity|constructor]. }
   destruct ((negb (cx_glob_en x) || negb (cx_ck_en x)) && negb force) eqn:En.
-  { inversion HR; subst. apply Drop. assumption. }
+  { assert (nf_type_eqb ty NfRecovery && negb (cx_paused x) = false) as Q.
+    { unfold oi, nf_opinfo_st, nf_opinfo_of in Hrd. cbn [oi_recdrop] in Hrd.
+      apply andb_true_iff in En. destruct En as [En1 En2]. rewrite En1, En2 in Hrd.
+      destruct (nf_type_eqb ty NfRecovery); destruct (negb (cx_paused x)); cbn in Hrd; try reflexivity; discriminate. }
+    rewrite Q in HR. inversion HR; subst. apply Drop. assumption. }
   destruct (cx_auth x).
   - destruct (negb (cx_paused x)).
     + destruct (nf_stash s) eqn:St.
@@ -355,8 +361,18 @@ Lemma nf_step_ok c s g o s' evs :
 Proof.
   intros oi HI HS. pose proof (nf_g_start_inv c oi s g HI) as HM.
   destruct o as [now x ty force|now x]; cbn [nf_step] in HS.
-  - destruct (nf_request_ok c s _ now x ty force s' evs HM HS) as [A (B & _)]. split; assumption.
-  - assert (g_cnt (nf_g_start c oi g) = 0) as Hc0 by (unfold nf_g_start; rewrite nf_g_cnt_mask; reflexivity).
+  - destruct (oi_recdrop oi) eqn:Hrd.
+    + (* a Recovery requested while notifications are disabled: dropped whole, the incident set is cleared *)
+      assert (nf_request c now x ty force s = (nf_set_npu s [], [NfEvDrop ty])) as Q.
+      { unfold oi, nf_opinfo_st, nf_opinfo_of in Hrd. cbn [oi_recdrop] in Hrd.
+        apply andb_true_iff in Hrd. destruct Hrd as [Hrd P]. apply andb_true_iff in Hrd. destruct Hrd as [Hrd Dis].
+        apply andb_true_iff in Hrd. destruct Hrd as [Er Nf].
+        unfold nf_request. rewrite Dis, Nf, Er, P. reflexivity. }
+      rewrite Q in HS. inversion HS; subst s' evs.
+      split; [intros v []|]. destruct HM as (HM & _). exact HM.
+    + destruct (nf_request_ok c s _ now x ty force s' evs HM Hrd HS) as [A (B & _)]. split; assumption.
+  - assert (oi_recdrop oi = false) as Hrd by reflexivity. rewrite Hrd in HM.
+    assert (g_cnt (nf_g_start c oi g) = 0) as Hc0 by (unfold nf_g_start; rewrite nf_g_cnt_mask; reflexivity).
     destruct (nf_tick_ok c s _ now x s' evs HM Hc0 HS) as [A (B & _)]. split; assumption.
 Qed.
 
